@@ -1,7 +1,7 @@
 #!/venv/bin/python
 """Run ALL checks against every refactoring under /verif/twins (scratch copies); every check must stay silent.
 
-usage: twin_eval.py [twin-id ...]   -> prints alarms; writes /verif/twins/RESULTS.json
+usage: twin_eval.py [--props=C05,C07] [--write] [twin-id ...]   -> prints alarms; --write stores /verif/twins/RESULTS.json
 """
 import json
 import os
@@ -51,7 +51,11 @@ def one(tid):
 
 
 def main():
-    args = sys.argv[1:]
+    args = [a for a in sys.argv[1:] if not a.startswith('--')]
+    only_props = [a[8:].split(',') for a in sys.argv[1:] if a.startswith('--props=')]
+    global ALL
+    if only_props:
+        ALL = only_props[0]
     tw = sorted(t for t in os.listdir(TW) if os.path.isfile(os.path.join(TW, t, 'meta.json')))
     if args:
         tw = [t for t in tw if t in args]
@@ -68,7 +72,7 @@ def main():
                         print('      %s %s [%s] %s -- %s' % (pid, st, r, k[:90], dtl[:160]))
     silent = sum(1 for t in tw if not out.get(t))
     print('twins: %d, silent: %d, alarms: %d' % (len(tw), silent, len(tw) - silent))
-    if not args:
+    if not args and '--write' in sys.argv:
         with open(os.path.join(TW, 'RESULTS.json'), 'w') as f:
             json.dump(out, f, indent=1, sort_keys=True)
 
